@@ -166,8 +166,8 @@ def r14bc(ck, prog):
 def run(ck, progs):
     describe(ck)
     for cfg, prog in progs.items():
-        r14a(ck, prog)
-        r14bc(ck, prog)
+        ck.attempt(r14a, ck, prog)
+        ck.attempt(r14bc, ck, prog)
     return ("Who-may-read of msa_seq.seq over everything kalign_run runs before finalise_alignment and the uses of the "
             "letter inside the translation function; the alphabet tables of every alphabet kalign_run selects, obtained by "
             "constant evaluation of create_alphabet and its callees (loops unrolled, calls inlined), compared entry by entry "
